@@ -360,7 +360,7 @@ theorem index_good {c i : Expr} {τ : Ty}
       | noneDeref => exact absurd hel gl.1
       | _ => exact ⟨by simp [eval, hel], by simp [eval, hel]⟩
 
-theorem impl_good {a c : Expr} {τ : Ty} (hk : Function.Injective key) (inv : Inv key Γ F ρ)
+theorem impl_good {a c : Expr} {τ : Ty} (hk : KeySound key) (inv : Inv key Γ F ρ)
     (iha : ∀ ti, infer key Γ F a = .ok ti → Good Γ.decls (eval ρ a) ti)
     (ihc : ∀ ti, Inv key Γ (implFacts key F a) ρ → infer key Γ (implFacts key F a) c = .ok ti →
       Good Γ.decls (eval ρ c) ti)
@@ -389,7 +389,7 @@ theorem impl_good {a c : Expr} {τ : Ty} (hk : Function.Injective key) (inv : In
       | noneDeref => exact absurd hea ga
       | _ => simp [eval, hea]
 
-theorem and_cons_ne {e : Expr} {es : List Expr} (hk : Function.Injective key) (inv : Inv key Γ F ρ)
+theorem and_cons_ne {e : Expr} {es : List Expr} (hk : KeySound key) (inv : Inv key Γ F ρ)
     (ihe : ∀ ti, infer key Γ F e = .ok ti → Good Γ.decls (eval ρ e) ti)
     (ihes : Inv key Γ (andFact key F e) ρ → inferAnd key Γ (andFact key F e) es = .ok () → evalAnd ρ es ≠ .noneDeref)
     (h : inferAnd key Γ F (e :: es) = .ok ()) : evalAnd ρ (e :: es) ≠ .noneDeref := by
@@ -416,7 +416,7 @@ theorem and_cons_ne {e : Expr} {es : List Expr} (hk : Function.Injective key) (i
         | noneDeref => exact absurd hev ge
         | _ => simp
 
-theorem or_cons_ne {e : Expr} {es : List Expr} (hk : Function.Injective key) (inv : Inv key Γ F ρ)
+theorem or_cons_ne {e : Expr} {es : List Expr} (hk : KeySound key) (inv : Inv key Γ F ρ)
     (ihe : ∀ ti, infer key Γ F e = .ok ti → Good Γ.decls (eval ρ e) ti)
     (ihes : Inv key Γ (orFact key F e) ρ → inferOr key Γ (orFact key F e) es = .ok () → evalOr ρ es ≠ .noneDeref)
     (h : inferOr key Γ F (e :: es) = .ok ()) : evalOr ρ (e :: es) ≠ .noneDeref := by
